@@ -124,6 +124,28 @@ impl SparqlTranslator {
             });
         }
 
+        // Solution modifiers in the order of SPARQL 1.1 section 18.2.5: ORDER BY (above),
+        // projection, DISTINCT, then OFFSET and LIMIT.
+        // Apply projection (but NOT for aggregate queries - aggregate already produces correct columns)
+        // For aggregate queries, the AggregateOp outputs columns with proper aliases
+        if !has_aggregates {
+            let projections = self.translate_projection(&select.projection)?;
+            if !projections.is_empty() {
+                plan = LogicalOperator::Project(ProjectOp {
+                    projections,
+                    input: Box::new(plan),
+                });
+            }
+        }
+
+        // Apply DISTINCT/REDUCED
+        if select.modifier == ast::SelectModifier::Distinct {
+            plan = LogicalOperator::Distinct(DistinctOp {
+                input: Box::new(plan),
+                columns: None,
+            });
+        }
+
         // Apply OFFSET
         if let Some(offset) = select.solution_modifiers.offset {
             plan = LogicalOperator::Skip(SkipOp {
@@ -138,26 +160,6 @@ impl SparqlTranslator {
                 count: limit as usize,
                 input: Box::new(plan),
             });
-        }
-
-        // Apply DISTINCT/REDUCED
-        if select.modifier == ast::SelectModifier::Distinct {
-            plan = LogicalOperator::Distinct(DistinctOp {
-                input: Box::new(plan),
-                columns: None,
-            });
-        }
-
-        // Apply projection (but NOT for aggregate queries - aggregate already produces correct columns)
-        // For aggregate queries, the AggregateOp outputs columns with proper aliases
-        if !has_aggregates {
-            let projections = self.translate_projection(&select.projection)?;
-            if !projections.is_empty() {
-                plan = LogicalOperator::Project(ProjectOp {
-                    projections,
-                    input: Box::new(plan),
-                });
-            }
         }
 
         Ok(LogicalPlan::new(plan))
